@@ -190,7 +190,15 @@ func main() {
 	verbose := flag.Bool("v", false, "verbose")
 	listOnly := flag.Bool("list", false, "list obligations only")
 	replay := flag.String("replay", "", "re-run a replay file")
+	emitOverlay := flag.String("emit-overlay", "", "write the reduced ipfs/ipfs.go and an overlay json for --repo into this directory, then exit")
 	flag.Parse()
+	if *emitOverlay != "" {
+		if err := writeOverlay(*repo, *emitOverlay); err != nil {
+			fmt.Fprintln(os.Stderr, err)
+			os.Exit(2)
+		}
+		return
+	}
 	if *replay != "" {
 		os.Exit(runReplay(*replay, *repo))
 	}
